@@ -27,6 +27,10 @@ def streams(tier, rng, P, only=None, cases=None):
             ([('tr', 3), ('note', 'c', 0, False, None, None, None, None, None), ('tr', 2), ('note', 'd', 0, False, None, None, None, None, None)], None),
             ([('note', 'c', 0, False, None, None, None, 5, None)], None),
             ([('o', 10), ('note', 'b', 0, False, None, None, None, None, None), ('o', 0), ('note', 'c', -1, False, None, None, None, None, None)], None),
+            # a relative step that is clamped, directly followed by the opposite step: each step is clamped on its own
+            ([('o', 0), ('orel', -1), ('orel', 1), ('note', 'c', 0, False, None, None, None, None, None)], None), ([('o', 10), ('orel', 1), ('orel', -1), ('note', 'c', 0, False, None, None, None, None, None)], None),
+            ([('orel', 1)] * 7 + [('orel', -1), ('note', 'c', 0, False, None, None, None, None, None)], None), ([('v', 124), ('vrel', 1), ('vrel', -1), ('note', 'c', 0, False, None, None, None, None, None)], None), ([('v', 3), ('vrel', -1), ('vrel', 1), ('note', 'c', 0, False, None, None, None, None, None)], None),
+            ([('v', 120), ('vrel', 1), ('vrel', 1), ('vrel', -1), ('vrel', -1), ('note', 'c', 0, False, None, None, None, None, None), ('orel', -1), ('orel', -1), ('orel', -1), ('orel', -1), ('orel', -1), ('orel', -1), ('orel', 1), ('note', 'c', 0, False, None, None, None, None, None)], None),
         ]
         for j, (prog, _) in enumerate(fixed):
             src = mml.pr(prog)
